@@ -136,7 +136,7 @@ def _alarm(signum, frame):
     raise CaseTimeout()
 
 
-def run_case(prop, case, wall=60.0):
+def run_case(prop, case, wall=150.0):
     """Run one case with the wall-clock backstop armed."""
     old = signal.signal(signal.SIGALRM, _alarm)
     signal.setitimer(signal.ITIMER_REAL, wall)
